@@ -85,7 +85,9 @@ def run(cfg, H):
         import numpy as np
         import math
         j = H.iparam('idx')
-        c = int(np.ceil(np.sqrt(j)))
+        # through the real routine: m_n = n + |m| = 2 (ceil(sqrt(j)) - 1)
+        n, m = zer.fringe_to_nm(j)
+        c = (n + abs(m)) // 2 + 1
         H.holds('fringe: ceil(sqrt(j)) is the exact integer ceiling square root', (c - 1) ** 2 < j <= c * c, 'j=%d c=%d' % (j, c))
     elif k == 'fwd':
         j = H.iparam('idx')
